@@ -358,6 +358,10 @@ def restart_and_compare(h, ref=None, old=None):
     out = {'violations': [], 'healthy_entries': 0, 'unhealthy': {}, 'flags': {}}
     ref = ref if ref is not None else reference_from_store(d)
     old = old if old is not None else d.snapshot_model()
+    skew = getattr(h, 'successor_clock_behind', 0)
+    if skew:
+        # the successor runs on another host whose clock is behind the predecessor's (nothing in the stored state changed)
+        h.clock.now -= skew
     if d.mclient is not None:
         d.mclient.dead = True
     d.mclient = d.srv.client('master-c11')
